@@ -534,6 +534,45 @@ func (env *Env) elabIdent(name string) (Val, error) {
 	return Val{}, fmt.Errorf("unknown identifier %q", name)
 }
 
+// ctorArgs splits "(ctor a1 ... an)" into its top-level arguments.
+func ctorArgs(t, ctor string) ([]string, bool) {
+	pre := "(" + ctor + " "
+	if !strings.HasPrefix(t, pre) || !strings.HasSuffix(t, ")") {
+		return nil, false
+	}
+	body := t[len(pre) : len(t)-1]
+	var out []string
+	depth, start := 0, 0
+	inStr := false
+	for i := 0; i < len(body); i++ {
+		c := body[i]
+		switch {
+		case c == '"':
+			inStr = !inStr
+		case inStr:
+		case c == '(':
+			depth++
+		case c == ')':
+			depth--
+			if depth < 0 {
+				return nil, false
+			}
+		case c == ' ' && depth == 0:
+			if i > start {
+				out = append(out, body[start:i])
+			}
+			start = i + 1
+		}
+	}
+	if depth != 0 || inStr {
+		return nil, false
+	}
+	if start < len(body) {
+		out = append(out, body[start:])
+	}
+	return out, true
+}
+
 func (env *Env) fieldOf(v Val, name string) (Val, error) {
 	if v.GoT == nil {
 		return Val{}, fmt.Errorf("field %s of untyped value", name)
@@ -553,6 +592,11 @@ func (env *Env) fieldOf(v Val, name string) (Val, error) {
 			ft := st.Field(i).Type()
 			if !ptr {
 				si := env.P.sorts.structInfoOf(t)
+				// field of a struct value that is literally a constructor application: take the component (keeps
+				// terms small and lets quantified frame conditions trigger on the underlying heap reads)
+				if args, ok := ctorArgs(v.T.S, si.ctor); ok && len(args) == len(si.fields) {
+					return Val{T: Term{args[i], si.fsorts[i]}, GoT: ft}, nil
+				}
 				return Val{T: app(si.fsorts[i], si.fields[i], v.T), GoT: ft}, nil
 			}
 			if env.st == nil {
@@ -621,7 +665,7 @@ func (env *Env) indexOf(v, i Val) (Val, error) {
 			if env.st == nil {
 				return Val{}, fmt.Errorf("slice index without state")
 			}
-			h := env.st.getHeap(env.P, "E$"+typeKey(u.Elem()), fmt.Sprintf("(Array Int (Array Int %s))", es))
+			h := env.st.getHeap(env.P, elemComp(u.Elem()), fmt.Sprintf("(Array Int (Array Int %s))", es))
 			inner = app(fmt.Sprintf("(Array Int %s)", es), "select", h, app("Int", "s_arr", v.T))
 		}
 		return Val{T: app(es, "select", inner, eidx(v.T, i.T)), GoT: u.Elem()}, nil
@@ -1284,7 +1328,7 @@ func (env *Env) callSpec(sf *SpecFunc, args []Val) (Val, error) {
 				if env.st == nil {
 					return Val{}, fmt.Errorf("%s: slice argument without state", sf.Name)
 				}
-				h := env.st.getHeap(P, "E$"+typeKey(u.Elem()), fmt.Sprintf("(Array Int (Array Int %s))", es))
+				h := env.st.getHeap(P, elemComp(u.Elem()), fmt.Sprintf("(Array Int (Array Int %s))", es))
 				ts = append(ts, app(fmt.Sprintf("(Array Int %s)", es), "select", h, app("Int", "s_arr", a.T)))
 			}
 		}
